@@ -77,6 +77,11 @@ def _set_outputs(oi, st, x_done, in_pool):
             a.state.outputs.set_message_complete(m)
         if x_done:
             a.state.outputs.set_message_complete('xx')
+        if ST[st] not in ('waiting', 'expired'):
+            # a job was prepared at least once: retry timers are armed
+            from cylc.flow.task_job_mgr import TaskJobManager
+            a.submit_num = 1
+            TaskJobManager._set_retry_timers(a)
     before = {m for m in ALLOUT if in_pool and
               a.state.outputs.is_message_complete(m)}
     status0 = ST[st] if in_pool else 'waiting'
